@@ -93,6 +93,8 @@ func c05Check(mk func(rpb int64) IRecordReader, n1, n2 int, seps string) {
 	both := c05ReadAll(mk(rpb), []string{"f1", "f2"})
 	one := c05ReadAll(mk(rpb), []string{"f1"})
 	two := c05ReadAll(mk(rpb), []string{"f2"})
+	// files that are each readable alone are readable together
+	verifAssert(!both.hadErr || one.hadErr || two.hadErr, "C05/inputs-concatenate-no-error-from-reading-them-together")
 	if both.hadErr || one.hadErr || two.hadErr {
 		// data errors (ragged CSV-lite lines) end the run of the real program; outside this claim
 		verifReach("C05/reader/data-error")
@@ -164,4 +166,21 @@ func VerifC05_csvlite_implicit_header_two_files() {
 		verifAssert(err == nil, "C05/reader-created")
 		return r
 	}, c05Len(3), c05Len(3), "\n,")
+}
+
+// the full CSV reader and the TSV reader, explicit and implicit header (files of different widths)
+//verif:opts engine-only maxpaths=60000
+func VerifC05_csv_tsv_two_files() {
+	type rc struct {
+		format   string
+		implicit bool
+		seps     string
+	}
+	c := []rc{{"csv", false, "\n,"}, {"csv", true, "\n,"}, {"tsv", false, "\n\t"}, {"tsv", true, "\n\t"}}[verifChoice("reader", 4)]
+	o := c05ReaderOptions(c.format, c.implicit)
+	c05Check(func(rpb int64) IRecordReader {
+		r, err := Create(o, rpb)
+		verifAssert(err == nil, "C05/reader-created")
+		return r
+	}, 3, 3, c.seps)
 }
